@@ -191,9 +191,46 @@ def k_energy(params):
         viol.append(violation("energy/nonfinite/order%d" % order, "non-finite states from ExtendedSymplectic(order=%d) on %s" % (order, name)))
     elif b > 3.0 * a + 1e-12:
         viol.append(violation("energy/drift/order%d" % order, "energy error grows: max|H-H0| first half %.3e, second half %.3e (ExtendedSymplectic(order=%d), dt=%g, %d steps, H=%s)" % (a, b, order, params["dt"], n, name), b, a))
+    else:
+        # a secular (linear) drift only doubles the second-half maximum; by quarters it shows as a factor ~4 (bounded oscillations measured on the
+        # unmodified scheme: <= 1.3 for every menu entry, dt in {0.02, 0.05, 0.1})
+        q = len(dH) // 4
+        qs = [float(np.max(dH[i * q:(i + 1) * q])) for i in range(4)]
+        if qs[3] > 2.0 * qs[0] + 1e-12 and qs[2] > 1.5 * qs[0]:
+            viol.append(violation("energy/secular/order%d" % order, "energy error drifts: max|H-H0| per quarter of the run %s (ExtendedSymplectic(order=%d), dt=%g, %d steps, H=%s)" % (
+                ["%.2e" % v for v in qs], order, params["dt"], n, name), qs[3], qs[0]))
     if not np.array_equal(sol.times, t):
         viol.append(violation("energy/times", "integrate() does not return the requested time grid"))
     return res(evals=n, nontrivial=1, viol=viol, stats={"max_energy_error": max(a, b)}, sample={"ham": name, "order": order, "first_half": a, "second_half": b})
+
+
+def k_kernel_roundtrip(params):
+    """the multi-step kernel (it chooses omega itself from the step) over there-and-back grids: on the extended space every step is undone
+    by the opposite step, so the trajectory must retrace itself and end where it started"""
+    sy = _L["sy"]
+    name, order = params["ham"], params["order"]
+    p, hs, fpy = _ham(name)
+    y0 = np.array(STATES[0]) + params["off"]
+    viol = []
+    n = nt = 0
+    for c in params["cs"]:
+        for h in params["hs"]:
+            for grid in ([0.0, h, 0.0], [0.0, h, 2 * h, 3 * h, 2 * h, h, 0.0], [0.0, -h, 0.0]):
+                t = np.array(grid)
+                tr = np.asarray(sy._integrate_symplectic(y0, t, hs.jac_H, hs.clmo_H, order, c))
+                n += 1
+                if not np.all(np.isfinite(tr)):
+                    continue
+                nt += 1
+                m = len(grid) // 2
+                e_end = float(np.max(np.abs(tr[-1] - y0)))
+                e_mirror = max(float(np.max(np.abs(tr[m - k] - tr[m + k]))) for k in range(1, m + 1))
+                sc = 1.0 + float(np.max(np.abs(tr)))
+                if max(e_end, e_mirror) > 1e-10 * sc:
+                    viol.append(violation("kernel_roundtrip/order%d" % order, "_integrate_symplectic over the grid %s (c=%g, H=%s) does not retrace itself: end-start %.3e, mirror samples differ by %.3e" % (
+                        grid, c, name, e_end, e_mirror), max(e_end, e_mirror), 0.0))
+                    break
+    return res(evals=n, nontrivial=nt, viol=viol[:2], sample={"ham": name, "order": order, "grids": n})
 
 
 def k_substeps(params):
@@ -236,7 +273,7 @@ def k_substeps(params):
     return res(evals=len(rec), nontrivial=1, viol=viol, sample={"order": order, "substeps": len(rec), "first": rec[:5]})
 
 
-KINDS = {"map": k_map, "map_one": k_map_one, "order": k_order, "energy": k_energy, "substeps": k_substeps}
+KINDS = {"kernel_roundtrip": k_kernel_roundtrip, "map": k_map, "map_one": k_map_one, "order": k_order, "energy": k_energy, "substeps": k_substeps}
 
 
 def cases(tier, seed):
@@ -255,4 +292,9 @@ def cases(tier, seed):
                 out.append(("order", {"ham": name, "order": order, "omega": omega, "state": 0, "off": off, "T": 1.0, "rungs": 5}))
         for name in ("q2p2", "cubic_mixed"):
             out.append(("energy", {"ham": name, "order": order, "dt": 0.02, "steps": 8000 if tier == "quick" else 20000, "scale": 1.0}))
+            for dt in (0.05, 0.1):
+                if order <= 4 or tier != "quick":
+                    out.append(("energy", {"ham": name, "order": order, "dt": dt, "steps": 20000 if tier == "quick" else 40000, "scale": 1.0}))
+        for name in (("q2p2", "cubic_mixed", "oscillators") if tier == "quick" else hams):
+            out.append(("kernel_roundtrip", {"ham": name, "order": order, "hs": [0.01, 0.04, 0.1, 0.3], "cs": [20.0, 5.0], "off": off}))
     return out
